@@ -383,6 +383,167 @@ let do_mdns id ins outs =
     else verdict "mdns" id "diff" tag (Printf.sprintf "names impl(%s) model(%d) equal=%b; addrs equal=%b; impl addrs=%s model addrs=%s" nn mcount (mn = dn) (ma = da) (short da) (short ma))
   | _ -> verdict "mdns" id "diff" "malformed-line" ""
 
+(* ---- engine ttl ----
+   ttl <id> upd|adj <msghex> <age> <maxAge> <maxTTL> <id> => <outenc> <minTTL> *)
+let rec z_of_big (s : string) : z =
+  (* decimal string -> Z without overflow concerns (values < 2^32 fit OCaml int anyway) *)
+  z_of_int (int_of_string s)
+
+(* (ttl, type) of every record, by a plain walk over a well-formed encoding (driver-side helper for the
+   per-record spec; returns [] when the walk fails) *)
+let record_ttls (b : int array) : (int * int) list =
+  let n = Array.length b in
+  if n < 12 then [] else
+  let u16 o = b.(o) * 256 + b.(o+1) in
+  let qd = u16 4 and cnt = ((u16 6) + (u16 8) + (u16 10)) land 0xffff in
+  let off = ref 12 in
+  let ok = ref true in
+  let skip_name () =
+    let fin = ref false in
+    while not !fin && !ok do
+      if !off >= n then ok := false else begin
+        let c = b.(!off) in
+        if c = 0 then (incr off; fin := true)
+        else if c land 0xc0 = 0xc0 then (off := !off + 2; fin := true)
+        else if c land 0xc0 = 0 then off := !off + 1 + c
+        else ok := false end
+    done in
+  for _ = 1 to qd do if !ok then begin skip_name (); off := !off + 4 end done;
+  let res = ref [] in
+  (try
+    for _ = 1 to cnt do
+      if !ok && !off < n then begin
+        skip_name ();
+        if !ok && !off + 10 <= n then begin
+          let typ = u16 !off in
+          let ttl = (b.(!off+4) lsl 24) lor (b.(!off+5) lsl 16) lor (b.(!off+6) lsl 8) lor b.(!off+7) in
+          let rl = u16 (!off + 8) in
+          res := (ttl, typ) :: !res;
+          off := !off + 10 + rl;
+          if !off > n then ok := false
+        end else ok := false
+      end
+    done with _ -> ok := false);
+  List.rev !res
+
+let do_ttl id ins outs =
+  match ins, outs with
+  | [kind; msgh; age; maxage; maxttl; qid], [out; minttl] ->
+    let msg = bytes_of_token msgh in
+    let a = z_of_big age and ma = z_of_big maxage and mt = z_of_big maxttl in
+    let (mout, mmin) = if kind = "upd" then update_ttl msg a ma mt else adjusted_response msg (z_of_big qid) a ma mt in
+    let ms = Printf.sprintf "%s %d" (enc_out mout) (int_of_z mmin) in
+    let is = Printf.sprintf "%s %s" out minttl in
+    let tag = kind ^ (if int_of_z mmin > 0 then "/fresh" else "/zero") in
+    (* per-record spec on the implementation's own output when it is available in full *)
+    let specbad =
+      (match full_bytes out with
+       | Some ob when List.length ob = List.length msg && kind = "upd" ->
+         let before = record_ttls (Array.of_list (List.map int_of_z msg)) in
+         let after = record_ttls (Array.of_list (List.map int_of_z ob)) in
+         List.length before = List.length after &&
+         List.exists2 (fun (t, ty) (t', _) -> ty <> 41 && not (ttl_ok (z_of_int t) (z_of_int t') a mt)) before after
+       | _ -> false) in
+    if specbad then verdict "ttl" id "spec:C07" tag (Printf.sprintf "impl=%s model=%s" is ms)
+    else if is = ms then verdict "ttl" id "ok" tag ""
+    else verdict "ttl" id "diff" tag (Printf.sprintf "impl=%s model=%s" is ms)
+  | _ -> verdict "ttl" id "diff" "malformed-line" ""
+
+(* ---- engine resolver, mode hist ----
+   rhist <id> <cacheon> <maxage> <maxttl> <op;op;...> => <out;out;...> *)
+let split_on c s = String.split_on_char c s
+let do_rhist id ins outs =
+  match ins, outs with
+  | [con; mage; mttl; opss], [outss] ->
+    let cfg = { cache_on = (con = "1"); max_age = z_of_int (int_of_string mage); max_ttl = z_of_int (int_of_string mttl) } in
+    let ops = split_on ';' opss and os = split_on ';' outss in
+    let zi s = z_of_int (int_of_string s) in
+    let parse_op o : rop * (rkey option) * string =
+      (match split_on ':' o with
+       | ["A"; dt] -> (OpAdvance (zi dt), None, "")
+       | ["D"; qid; cls; typ; nm; url; up] ->
+         let q = { rq_id = zi qid; rq_class = zi cls; rq_type = zi typ; rq_name = bytes_of_token nm } in
+         let u = bytes_of_token url in
+         let upm =
+           if up = "E" then DRtErr else if up = "S" then DStatus (z_of_int 500) else if up = "X" then DBodyErr
+           else (let body, lm = (match String.index_opt up '@' with
+               | Some i -> String.sub up 1 (i-1), Some (zi (String.sub up (i+1) (String.length up - i - 1)))
+               | None -> String.sub up 1 (String.length up - 1), None) in
+                 DBody (bytes_of_token body, lm)) in
+         (OpDoh (q, u, upm), Some (key_of_doh q u), string_of_bytes u)
+       | ["N"; qid; cls; typ; nm; dial; dgs] ->
+         let q = { rq_id = zi qid; rq_class = zi cls; rq_type = zi typ; rq_name = bytes_of_token nm } in
+         (OpDns (q, dial = "1", List.map bytes_of_token (split_on ',' dgs)), Some (key_of_dns q), "")
+       | _ -> failwith ("rhist op " ^ o)) in
+    let problems = ref [] and specs = ref [] in
+    let nq = ref 0 and nhit = ref 0 in
+    let rec go h log ops os i =
+      (match ops, os with
+       | [], _ -> ()
+       | o :: orest, out :: outrest ->
+         let (op, key, url) = parse_op o in
+         let (h', mres) = rstep cfg h op in
+         (match mres, key with
+          | Some r, Some k ->
+            incr nq;
+            (match split_on '/' out with
+             | [buf; fc; err; asked; path; prof] ->
+               let mbuf = enc_out r.rs_buf in
+               let ms = Printf.sprintf "%s/%s/%s" mbuf (if r.rs_from_cache then "1" else "0") (if r.rs_err then "1" else "0") in
+               let is = Printf.sprintf "%s/%s/%s" buf fc err in
+               (* on error the bytes left in the buffer are not part of any property (the proxy answers SERVFAIL) *)
+               let same = if r.rs_err && err = "1" then fc = (if r.rs_from_cache then "1" else "0") else is = ms in
+               if not same then problems := Printf.sprintf "op %d (%s): impl=%s model=%s" i (String.sub o 0 (min 40 (String.length o))) is ms :: !problems;
+               if fc = "1" && err = "0" then begin
+                 incr nhit;
+                 (match full_bytes buf with
+                  | Some b -> if not (c06_ok log k b) then specs := "C06" :: !specs
+                  | None -> ());
+                 if asked <> "0" then problems := Printf.sprintf "op %d: served from cache but upstream was asked" i :: !problems
+               end;
+               (* C11: the request path is the profile id of the URL; ResolveInfo.Profile is that id *)
+               if url <> "" && asked <> "0" then begin
+                 let p = string_of_bytes (bytes_of_token path) in
+                 let expect = (let pre = "https://doh.test" in String.sub url (String.length pre) (String.length url - String.length pre)) in
+                 if p <> expect then specs := "C11" :: !specs;
+                 if "/" ^ string_of_bytes (bytes_of_token prof) <> expect then specs := "C11" :: !specs
+               end
+             | _ -> problems := "bad out" :: !problems)
+          | _ -> ());
+         go h' (log @ stored_of cfg op) orest outrest (i + 1)
+       | _ -> problems := "fewer outputs than ops" :: !problems) in
+    go { h_st = rstate0; h_now = z_of_int 1000000 } [] ops os 0;
+    let tag = Printf.sprintf "%s/q%d/hit%d" (if con = "1" then "cache" else "nocache") (min !nq 9) (min !nhit 3) in
+    let detail = String.concat "; " (List.rev !problems) in
+    if !specs <> [] then verdict "rhist" id ("spec:" ^ String.concat "," (List.sort_uniq compare !specs)) tag detail
+    else if !problems = [] then verdict "rhist" id "ok" tag ""
+    else verdict "rhist" id "diff" tag detail
+  | _ -> verdict "rhist" id "diff" "malformed-line" ""
+
+(* ---- engine resolver, mode fault ----
+   fault <id> <tr> <kind> <qhex> <outcome> <uptok> => <nrep> <repenc> <lat_ms> <timeout_ms> *)
+let do_fault id ins outs =
+  match ins, outs with
+  | [tr; kind; qh; outcome; uptok], [nrep; rep; lat; tmo] ->
+    let q = bytes_of_token qh in
+    let up = bytes_of_token uptok in
+    let cfg0 = { cache_on = false; max_age = Z0; max_ttl = Z0 } in
+    let o = (match outcome with
+      | "up" -> if up = [] then UpEmpty else Up up
+      | "empty" -> UpEmpty
+      | "big" ->
+        let rq0 = { rq_id = Z0; rq_class = Z0; rq_type = Z0; rq_name = [] } in
+        let (_, r) = doh_resolve cfg0 rstate0 Z0 rq0 [] (DBody (up, None)) in
+        if r.rs_err then UpErr else Up r.rs_buf
+      | _ -> UpErr) in
+    let model = res_str enc_out (handle UDP q o) in
+    let tag = tr ^ "/" ^ kind in
+    let late = int_of_string lat > int_of_string tmo + 300 in
+    if nrep <> "1" || late then verdict "fault" id "spec:C03" tag (Printf.sprintf "replies=%s latency=%sms timeout=%sms" nrep lat tmo)
+    else if rep = model then verdict "fault" id "ok" tag ""
+    else verdict "fault" id "diff" tag (Printf.sprintf "impl=%s model=%s" rep model)
+  | _ -> verdict "fault" id "diff" "malformed-line" ""
+
 let () =
   try
     while true do
@@ -395,6 +556,9 @@ let () =
       | "lease" :: id :: rest -> let (i, o) = split_arrow rest in do_lease id i o
       | "hosts" :: id :: rest -> let (i, o) = split_arrow rest in do_hosts id i o
       | "clist" :: id :: rest -> let (i, o) = split_arrow rest in do_clist id i o
+      | "rhist" :: id :: rest -> let (i, o) = split_arrow rest in do_rhist id i o
+      | "fault" :: id :: rest -> let (i, o) = split_arrow rest in do_fault id i o
+      | "ttl" :: id :: rest -> let (i, o) = split_arrow rest in do_ttl id i o
       | "mdns" :: id :: rest -> let (i, o) = split_arrow rest in do_mdns id i o
       | "flow" :: id :: rest -> let (i, o) = split_arrow rest in do_flow id i o
       | "fwd" :: id :: rest -> let (i, o) = split_arrow rest in do_fwd id i o
